@@ -493,6 +493,8 @@ def truncation(ctx):
     def s_reader_new(ex, st, func, args, ty): return [(st, named(st, st.fresh_name('reader'), 'Reader'))]
     summ = [(r'String::truncate$', s_truncate), (r'impl str>::is_char_boundary$|String::is_char_boundary$', s_is_boundary), (r'Reader::<.*>::new$', s_reader_new),
             (r'<std::string::String as Clone>::clone$', lambda ex, st, f, a, t: [(st, seqobj(st, 'String', model(st, a[0])))]), (r'String::as_bytes$|impl str>::as_bytes$', s_identity),
+            (r'<std::string::String as Index<.*>>::index$|<str as Index<.*>>::index$', __import__('vf.scen_kernels', fromlist=['s_str_index']).s_str_index),
+            (r'ToString>::to_string$|<str as ToOwned>::to_owned$|String::from$|<std::string::String as From<&str>>::from$', lambda ex, st, f, a, t: [(st, seqobj(st, 'String', model(st, a[0])))]),
             (r'String::len$|impl str>::len$', s_seq_len), (r'as Deref>::deref$', s_identity), (r'std::cmp::min::<usize>$|Ord>::min$', lambda ex, st, f, a, t: [(st, BV(z3.If(z3.ULT(a[0].t, a[1].t), a[0].t, a[1].t)))])]
     ex = ctx.exec(summaries=summ, max_visits=40)
     F = ex.find(r'^from_string$|^reader::from_string$')
@@ -501,12 +503,19 @@ def truncation(ctx):
         st = State(); src = seqobj(st, 'String', [BV(bv8(0x61)) for _ in range(pre)] + [BV(b) for b in free] + [BV(bv8(0x62))] * 2)
         st.pc.append(utf8_valid(free))
         panics.clear()
+        from .scen_kernels import PANICS as KPANICS
+        KPANICS.clear()
         ex.new_frame(st, F, [slot(st, src, 'src*')])
-        for d in ex.run(st) + list(panics):
+        for d in ex.run(st) + list(panics) + list(KPANICS):
             run.paths += 1
             if d.status == 'infeasible': continue
             fam.obligations += 1; fam.witnesses += 1
-            if d.status == 'returned': fam.discharged += 1; continue
+            if d.status == 'returned' and not d.havoc: fam.discharged += 1; continue
+            if d.status == 'returned':
+                # the name is built through a call the scenario has no model for: undecided here, settled natively below
+                if not any(c.role == 'unmodelled-name' for c in fam.candidates):
+                    fam.candidates.append(Candidate(fam.name, 'unmodelled-name', f'from_string builds the reader name through {d.havoc[0]}', {'pre': 31, 'free_hex': 'e0a080'}, unmodelled=d.havoc[0]))
+                continue
             ok_, m = ex.valid(d, z3.BoolVal(False))
             bs = bytes(m.eval(b, True).as_long() for b in free)
             if not any(c.role == 'truncate-panic' for c in fam.candidates):
